@@ -33,6 +33,9 @@ pub fn install_panic_hook() {
             String::new()
         };
         LAST_PANIC.with(|p| *p.borrow_mut() = Some(format!("{loc}: {msg}")));
+        if msg == "verif-sched-abort" {
+            return;
+        }
         if !QUIET.with(|q| *q.borrow()) {
             prev(info);
         }
